@@ -418,6 +418,7 @@ func (x *Exec) reader(name string, c *mqtt.Client, gen int, spec ProcSpec) {
 		var big *mqtt.BigMessage
 		if errors.As(err, &big) {
 			e["bigsize"], e["bigtopic"] = big.Size, big.Topic
+			e["tag"] = x.W.Broker.TagBySize(big.Size) // which delivery this is (sizes are distinct per scenario)
 		}
 		x.emit(e)
 		if big != nil && spec.Big != "skip" {
@@ -595,16 +596,24 @@ func (x *Exec) sampleSignals() {
 	if x.Client == nil {
 		return
 	}
-	on, off := false, false
-	select {
-	case <-x.Client.Online():
-		on = true
-	default:
+	read := func() (on, off bool) {
+		select {
+		case <-x.Client.Online():
+			on = true
+		default:
+		}
+		select {
+		case <-x.Client.Offline():
+			off = true
+		default:
+		}
+		return
 	}
-	select {
-	case <-x.Client.Offline():
-		off = true
-	default:
+	on, off := read()
+	// The two channels are read one after the other: "both released" only counts when it persists.
+	for i := 0; on && off && i < 3; i++ {
+		time.Sleep(200 * time.Microsecond)
+		on, off = read()
 	}
 	s := fmt.Sprint(on, off)
 	if s != x.lastSig {
@@ -815,6 +824,8 @@ func (x *Exec) epilogue() {
 	drained := x.waitQuiet(quiet, 4*x.limit, func() bool { return x.drained() || x.closedByScenario() })
 	if !drained {
 		x.reportStuck("drain")
+	} else if !x.closedByScenario() {
+		x.snapshot() // quiescent: queue lengths must match what is pending
 	}
 	if x.B.Epilogue != "drain-noclose" {
 		closed := make(chan struct{})
